@@ -479,6 +479,18 @@ Definition find_job (n : nat) (js : list job) : option job := find (fun j => Nat
 Definition db_get (n : nat) (db : list (nat * option Z)) : option (option Z) :=
   match find (fun p => Nat.eqb (fst p) n) db with Some p => Some (snd p) | None => None end.
 
+(* the metrics collector reports: the first report creates the entry of the trial (with or without an objective value); a later
+   report can only add the objective value to an entry that has none yet (metrics arrive progressively) *)
+Definition metrics_db (t : nat) (v : option Z) (db : list (nat * option Z)) : list (nat * option Z) :=
+  match db_get t db with
+  | None => db ++ [(t, v)]
+  | Some None => match v with
+                 | Some z => map (fun p => if Nat.eqb (fst p) t then (t, Some z) else p) db
+                 | None => db
+                 end
+  | Some (Some _) => db
+  end.
+
 Inductive jstatus := JSFailed | JSSucceeded | JSRunning.
 
 Definition trial_status_write (t : trial) (cs : conds) (o : obs) (ct : option nat) : pending :=
@@ -748,9 +760,9 @@ Definition step (w : world) (a : action) : world :=
                                  else j) (w_jobs w))
   | JobGone t => set_jobs w (filter (fun j => negb (Nat.eqb (j_name j) t)) (w_jobs w))
   | Metrics t v =>
-      match find_trial t (w_trials w), db_get t (w_db w) with
-      | Some _, None => set_db w (w_db w ++ [(t, v)])
-      | _, _ => w
+      match find_trial t (w_trials w) with
+      | Some _ => set_db w (metrics_db t v (w_db w))
+      | None => w
       end
   | EarlyStop t v =>
       match find_trial t (w_trials w) with
